@@ -19,7 +19,8 @@ RULE = (
     "real containers and files: a.data==b.data, b.data==a.data, a==b, b==a, a!=b, a==a. Judged by Spec.C15.holds "
     "(equal iff same length and pointwise same class and equal data; symmetric; reflexive; foreign -> False); each "
     "side is built through one of several container routes (plain appends; remove() of the sole element first; "
-    "inserts in reverse; appends with interleaved removals) that end in the same sequence; "
+    "inserts in reverse; appends with interleaved removals) that end in the same sequence; in 40% of the pairs the two "
+    "files are of different classes of the same family (framework class, a subclass, a sibling, a sub-subclass); "
     "compared with the model. reread: (register definitions, content) read twice -> the two files must be equal and "
     "write identical output. non-trivial = pair with same-family right-hand side of length >= 1; distinct by full case."
 )
@@ -65,9 +66,30 @@ def mk_classes(fam):
     return classes, D, F, Dflt
 
 
-def build(fam, seq, types=None, route="append"):
+FILE_CLASSES = ["base", "sub", "sibling", "subsub"]
+
+
+def file_class(F, which, cache={}):
+    """file classes of one family: the framework class, a subclass, a sibling
+    subclass, a subclass of the subclass (a format class and its variants); the
+    property's equality looks at the data only"""
+    key = (F, which)
+    if key not in cache:
+        if which == "base":
+            cache[key] = F
+        elif which == "sub":
+            cache[key] = type("FSub", (F,), {})
+        elif which == "sibling":
+            cache[key] = type("FSibling", (F,), {})
+        else:
+            cache[key] = type("FSubSub", (file_class(F, "sub"),), {})
+    return cache[key]
+
+
+def build(fam, seq, types=None, route="append", fcls="base"):
     """route: how the same final sequence is reached through the container API"""
     classes, D, F, Dflt = types or mk_classes(fam)
+    F = file_class(F, fcls)
     ph = Dflt(data="")
     data = D(ph)
     mk = lambda c, vals: classes[c](data=[codec.dec_val(v) for v in vals])
@@ -113,12 +135,12 @@ def run_impl(case):
             return {"checks": {"read_twice_files_equal": bool(f1 == f2), "read_twice_reverse_equal": bool(f2 == f1), "read_twice_not_unequal": not (f1 != f2), "read_twice_data_equal": bool(f1.data == f2.data), "equal_files_write_identical_output": b1.getvalue() == b2.getvalue()}}
         fam = case["family"]
         types = mk_classes(fam)
-        fa = build(fam, case["a"], types, case.get("route_a", "append"))
+        fa = build(fam, case["a"], types, case.get("route_a", "append"), case.get("fcls_a", "base"))
         if case["b"] is None:
             rhs = foreign(case["foreign"], fam)
             rdata = rhs.data if hasattr(rhs, "data") else rhs
         else:
-            rhs = build(fam, case["b"], types, case.get("route_b", "append"))
+            rhs = build(fam, case["b"], types, case.get("route_b", "append"), case.get("fcls_b", "base"))
             rdata = rhs.data
         return {"ab_data": bool(fa.data == rdata), "ba_data": bool(rdata == fa.data), "ab_file": bool(fa == rhs), "ba_file": bool(rhs == fa), "ne_file": bool(fa != rhs), "refl_a": bool(fa == fa) and bool(fa.data == fa.data)}
     except Exception as e:
@@ -158,7 +180,8 @@ def nontrivial(case):
 def features(case, obs):
     if case["shape"] == "reread":
         return ["shape=reread"]
-    f = ["shape=pair", f"family={case['family']}", f"len_a={len(case['a'])}", "relation=" + case.get("rel", "?"), "route_a=" + case.get("route_a", "append"), "route_b=" + case.get("route_b", "append")]
+    f = ["shape=pair", f"family={case['family']}", f"len_a={len(case['a'])}", "relation=" + case.get("rel", "?"), "route_a=" + case.get("route_a", "append"), "route_b=" + case.get("route_b", "append"),
+         "file_classes=" + ("same" if case.get("fcls_a", "base") == case.get("fcls_b", "base") else "different")]
     if isinstance(obs, dict) and "ab_file" in obs:
         f.append("equal" if obs["ab_file"] else "unequal")
     return f
@@ -236,6 +259,9 @@ def random_pair(rng):
     elif rel == "foreign":
         b, fk = None, rng.choice(["int", "none", "str", "otherfamily"])
     case = {"shape": "pair", "family": fam, "a": a, "b": b, "rel": rel, "route_a": rng.choice(ROUTES), "route_b": rng.choice(ROUTES)}
+    if rng.random() < 0.4:
+        # the two files are of different classes of the same family
+        case["fcls_a"], case["fcls_b"] = rng.choice(FILE_CLASSES), rng.choice(FILE_CLASSES)
     if fk:
         case["foreign"] = fk
     return case
@@ -286,6 +312,9 @@ def shrinks(case):
             for i in range(n):
                 yield {**case, "regs": case["regs"][:i] + case["regs"][i + 1 :]}
         return
+    if case.get("fcls_a", "base") != "base" and case.get("fcls_b", "base") != "base":
+        yield {**case, "fcls_a": "base"}
+        yield {**case, "fcls_b": "base"}
     if case.get("route_a", "append") != "append":
         yield {**case, "route_a": "append"}
     if case.get("route_b", "append") != "append":
